@@ -1,7 +1,311 @@
 (* Dispatcher of the model area: start/end/duration (C16) and alarms (C14, C15).
-   [dispatch_sched f a] = Some result when [f] names a function of this area.  Definitions only. *)
-Require Import Lib.Base.
+   [dispatch_sched f a] = Some result when [f] names a function of this area.  Definitions only.
+
+   Wire encodings (Python list <-> JL):
+     time    ["d", days] | ["n", s] | ["u", s] | ["z", zid, fix, s]   fix = [] or [offset]
+     pyval   ["t", time] | ["td", seconds] | ["o"]
+     entry   ["absent"] | ["one", pyval] | ["many"]
+     arg     ["none"] | ["val", pyval]
+     op      [name] | [name, arg] | [name, pyval]
+     oracle  [[zid, wall_table, utc_table], ...]   table = [[threshold, offset], ...] ascending;
+             the offset of the last row whose threshold is <= x applies (0 before the first row)
+     opt Z   ["none"] | z
+     alarm   [trigger entry, related (["none"] | string), repeat opt, duration opt, ack opt]
+     parent  [kind, [start entry, end entry, duration entry], dtstamp opt, moz flag, lastack opt, snooze opt]
+   Results: times as ["d", d] | ["n", s] | ["u", s] | ["z", zid, s, utcoffset];
+            errors as ["err", class name]. *)
+Require Import Lib.Base Model.Params Gen.Gen_sched Model.StartEnd Model.Alarm.
 From Coq Require Import String.
 Local Open Scope string_scope.
+Local Open Scope Z_scope.
 
-Definition dispatch_sched (f : list N) (a : jv) : option jv := None.
+Definition isf (f : list N) (name : string) : bool := str_eqb f (s2l name).
+Definition tag_is (s : list N) (name : string) : bool := str_eqb s (s2l name).
+
+(* ------------------------------------------------------------------ decoding *)
+Definition d_optZ (v : jv) : option (option Z) :=
+  match v with
+  | JZ z => Some (Some z)
+  | JL [JS s] => if tag_is s "none" then Some None else None
+  | _ => None
+  end.
+
+Definition d_time (v : jv) : option time :=
+  match v with
+  | JL [JS t; JZ x] =>
+      if tag_is t "d" then Some (Date x) else if tag_is t "n" then Some (Naive x)
+      else if tag_is t "u" then Some (Utc x) else None
+  | JL [JS t; JZ z; JL []; JZ s] => if tag_is t "z" then Some (Zoned {| zid := z; zfix := None |} s) else None
+  | JL [JS t; JZ z; JL [JZ f]; JZ s] => if tag_is t "z" then Some (Zoned {| zid := z; zfix := Some f |} s) else None
+  | _ => None
+  end.
+
+Definition d_zkey (v : jv) : option (option zkey) :=
+  match v with
+  | JL [JS s] => if tag_is s "none" then Some None else None
+  | JL [JZ z; JL []] => Some (Some {| zid := z; zfix := None |})
+  | JL [JZ z; JL [JZ f]] => Some (Some {| zid := z; zfix := Some f |})
+  | _ => None
+  end.
+
+Definition d_pyval (v : jv) : option pyval :=
+  match v with
+  | JL [JS t; x] =>
+      if tag_is t "t" then option_map VTime (d_time x)
+      else if tag_is t "td" then match x with JZ z => Some (VDelta z) | _ => None end
+      else None
+  | JL [JS t] => if tag_is t "o" then Some VOther else None
+  | _ => None
+  end.
+
+Definition d_entry (v : jv) : option entry :=
+  match v with
+  | JL [JS t] => if tag_is t "absent" then Some Absent else if tag_is t "many" then Some Many else None
+  | JL [JS t; x] => if tag_is t "one" then option_map One (d_pyval x) else None
+  | _ => None
+  end.
+
+Definition d_arg (v : jv) : option arg :=
+  match v with
+  | JL [JS t] => if tag_is t "none" then Some ANone else None
+  | JL [JS t; x] => if tag_is t "val" then option_map AVal (d_pyval x) else None
+  | _ => None
+  end.
+
+Definition d_op (v : jv) : option op :=
+  match v with
+  | JL [JS n] =>
+      if tag_is n "del_DTSTART" then Some DelDTSTART else if tag_is n "del_END" then Some DelEND
+      else if tag_is n "del_DURATION" then Some DelDURATION else None
+  | JL [JS n; x] =>
+      if tag_is n "set_DTSTART" then option_map SetDTSTART (d_arg x)
+      else if tag_is n "set_END" then option_map SetEND (d_arg x)
+      else if tag_is n "set_DURATION" then option_map SetDURATION (d_arg x)
+      else if tag_is n "set_start" then option_map SetStart (d_arg x)
+      else if tag_is n "set_end" then option_map SetEnd (d_arg x)
+      else if tag_is n "add_DTSTART" then option_map AddDTSTART (d_pyval x)
+      else if tag_is n "add_END" then option_map AddEND (d_pyval x)
+      else if tag_is n "add_DURATION" then option_map AddDURATION (d_pyval x)
+      else None
+  | _ => None
+  end.
+
+Fixpoint d_list {A} (f : jv -> option A) (l : list jv) : option (list A) :=
+  match l with
+  | [] => Some []
+  | x :: r => match f x, d_list f r with Some a, Some b => Some (a :: b) | _, _ => None end
+  end.
+
+Definition d_kind (v : jv) : option ckind :=
+  match v with JZ 0 => Some KEvent | JZ 1 => Some KTodo | _ => None end.
+
+Definition d_comp (v : jv) : option comp :=
+  match v with
+  | JL [s; e; d] =>
+      match d_entry s, d_entry e, d_entry d with
+      | Some s', Some e', Some d' => Some {| c_start := s'; c_end := e'; c_dur := d' |}
+      | _, _, _ => None
+      end
+  | _ => None
+  end.
+
+Definition d_row (v : jv) : option (Z * Z) := match v with JL [JZ a; JZ b] => Some (a, b) | _ => None end.
+Definition zone_tabs := list (Z * (list (Z * Z) * list (Z * Z))).
+Definition d_zone (v : jv) : option (Z * (list (Z * Z) * list (Z * Z))) :=
+  match v with
+  | JL [JZ z; JL w; JL u] =>
+      match d_list d_row w, d_list d_row u with Some w', Some u' => Some (z, (w', u')) | _, _ => None end
+  | _ => None
+  end.
+
+Fixpoint lookup_tab (tab : list (Z * Z)) (x cur : Z) : Z :=
+  match tab with
+  | [] => cur
+  | (thr, off) :: r => if thr <=? x then lookup_tab r x off else cur
+  end.
+Fixpoint find_zone (zs : zone_tabs) (z : Z) : option (list (Z * Z) * list (Z * Z)) :=
+  match zs with
+  | [] => None
+  | (z', t) :: r => if z' =? z then Some t else find_zone r z
+  end.
+Definition mk_oracle (zs : zone_tabs) : zoracle :=
+  {| off_wall := fun z s => match find_zone zs z with Some t => lookup_tab (fst t) s 0 | None => 0 end;
+     off_utc := fun z u => match find_zone zs z with Some t => lookup_tab (snd t) u 0 | None => 0 end |}.
+Definition d_oracle (v : jv) : option zoracle :=
+  match v with JL l => option_map mk_oracle (d_list d_zone l) | _ => None end.
+
+Definition d_alarm (v : jv) : option alarm :=
+  match v with
+  | JL [tr; rel; rep; dur; ack] =>
+      match d_entry tr, d_optZ rep, d_optZ dur, d_optZ ack with
+      | Some tr', Some rep', Some dur', Some ack' =>
+          match rel with
+          | JS r => Some {| a_trigger := tr'; a_related := Some r; a_repeat := rep'; a_duration := dur'; a_ack := ack' |}
+          | JL [JS _] => Some {| a_trigger := tr'; a_related := None; a_repeat := rep'; a_duration := dur'; a_ack := ack' |}
+          | _ => None
+          end
+      | _, _, _, _ => None
+      end
+  | _ => None
+  end.
+
+Definition d_parent (v : jv) : option parent :=
+  match v with
+  | JL [k; c; st; JZ moz; la; sn] =>
+      match d_kind k, d_comp c, d_optZ st, d_optZ la, d_optZ sn with
+      | Some k', Some c', Some st', Some la', Some sn' =>
+          Some {| p_kind := k'; p_comp := c'; p_dtstamp := st'; p_moz := negb (moz =? 0); p_lastack := la'; p_snooze := sn' |}
+      | _, _, _, _, _ => None
+      end
+  | _ => None
+  end.
+
+(* ------------------------------------------------------------------ encoding *)
+Definition jnone : jv := jtag "none" [].
+Definition j_time (o : zoracle) (t : time) : jv :=
+  match t with
+  | Date d => jtag "d" [JZ d]
+  | Naive s => jtag "n" [JZ s]
+  | Utc s => jtag "u" [JZ s]
+  | Zoned k s => jtag "z" [JZ (zid k); JZ s; JZ (zoff o k s)]
+  end.
+Definition j_vtag (t : vtag) : jv :=
+  match t with
+  | InvalidCal => jerr "InvalidCalendar"
+  | IncompleteComp => jerr "IncompleteComponent"
+  | StartMissing => jerr "ComponentStartMissing"
+  | EndMissing => jerr "ComponentEndMissing"
+  | LocalTzMissing => jerr "LocalTimezoneMissing"
+  end.
+Definition j_ekind (k : ekind) : jv :=
+  match k with TypeErr => jerr "TypeError" | AttributeErr => jerr "AttributeError" end.
+Definition j_sres {A} (f : A -> jv) (r : sres A) : jv :=
+  match r with SOk a => f a | SVal t => j_vtag t | SEsc k => j_ekind k end.
+Definition j_opt {A} (f : A -> jv) (x : option A) : jv := match x with Some a => f a | None => jnone end.
+Definition j_pyval (o : zoracle) (v : pyval) : jv :=
+  match v with VTime t => jtag "t" [j_time o t] | VDelta td => jtag "td" [JZ td] | VOther => jtag "o" [] end.
+Definition j_entry (o : zoracle) (e : entry) : jv :=
+  match e with Absent => jtag "absent" [] | One v => jtag "one" [j_pyval o v] | Many => jtag "many" [] end.
+Definition j_comp (o : zoracle) (c : comp) : jv := JL [j_entry o (c_start c); j_entry o (c_end c); j_entry o (c_dur c)].
+Definition j_outcome (x : outcome) : jv :=
+  match x with ODone => jtag "ok" [] | ORaised k => j_ekind k end.
+
+Definition j_getters (o : zoracle) (k : ckind) (c : comp) : jv :=
+  JL [j_sres (j_opt (j_time o)) (get_DTSTART k c);
+      j_sres (j_opt (j_time o)) (get_END k c);
+      j_sres (j_opt (j_pyval o)) (get_DURATION c);
+      j_sres (j_time o) (get_start k c);
+      j_sres (j_time o) (get_end k c);
+      j_sres JZ (get_dur o k c)].
+Definition j_guards (c : comp) : jv :=
+  JL [jbool (forbidden c); jbool (dur_typed c); jbool (tz_consistent c)].
+
+Definition j_atime (o : zoracle) (x : atime) : jv :=
+  JL [j_time o (at_trigger x);                       (* _trigger *)
+      j_sres (j_time o) (at_trigger_prop o x);       (* .trigger *)
+      j_opt JZ (acknowledged x);                     (* .acknowledged *)
+      j_sres jbool (is_active o x);                  (* .is_active() *)
+      jbool (not_date_trigger x); jbool (snooze_ok x)].
+
+Definition j_trigs (o : zoracle) (t : trigs) : jv :=
+  match t with
+  | TrigStart l => JL [JL (map JZ l); JL []; JL []]
+  | TrigEnd l => JL [JL []; JL (map JZ l); JL []]
+  | TrigAbs l => JL [JL []; JL []; JL (map (j_time o) l)]
+  | TrigNone => JL [JL []; JL []; JL []]
+  end.
+
+(* ------------------------------------------------------------------ entry points *)
+Definition dispatch_sched (f : list N) (a : jv) : option jv :=
+  if isf f "c16_run" then
+    Some match a with
+         | JL [k; JL ops; orc] =>
+             match d_kind k, d_list d_op ops, d_oracle orc with
+             | Some k', Some ops', Some o =>
+                 let c := run k' ops' empty_comp in
+                 JL [JL (map j_outcome (run_log k' ops' empty_comp)); j_comp o c; j_getters o k' c; j_guards c;
+                     jbool (no_add ops')]
+             | _, _, _ => junsupported
+             end
+         | _ => junsupported
+         end
+  else if isf f "c16_state" then
+    Some match a with
+         | JL [k; c; orc] =>
+             match d_kind k, d_comp c, d_oracle orc with
+             | Some k', Some c', Some o => JL [j_getters o k' c'; j_guards c']
+             | _, _, _ => junsupported
+             end
+         | _ => junsupported
+         end
+  else if isf f "c16_journal" then
+    Some match a with
+         | JL [e; orc] =>
+             match d_entry e, d_oracle orc with
+             | Some e', Some o => JL [j_sres (j_time o) (journal_start e'); j_sres (j_time o) (journal_end e');
+                                      j_sres JZ (journal_duration e')]
+             | _, _ => junsupported
+             end
+         | _ => junsupported
+         end
+  else if isf f "c14_times" then
+    (* [parent, alarms, oracle] -> [triggers of Alarms(component).times, spec_times, alarms_ok, eager_ok] *)
+    Some match a with
+         | JL [p; JL als; orc] =>
+             match d_parent p, d_list d_alarm als, d_oracle orc with
+             | Some p', Some als', Some o =>
+                 let s := get_start (p_kind p') (p_comp p') in
+                 let e := get_end (p_kind p') (p_comp p') in
+                 JL [j_sres (fun l => JL (map (j_time o) l)) (component_triggers o p' als');
+                     j_sres (fun l => JL (map (j_time o) l)) (spec_times o s e als');
+                     jbool (alarms_ok als'); jbool (eager_ok o p' als');
+                     JL (map (fun x => j_sres (j_trigs o) (alarm_triggers x)) als')]
+             | _, _, _ => junsupported
+             end
+         | _ => junsupported
+         end
+  else if isf f "c14_manual" then
+    (* Alarms() used by hand: [start opt, end opt, alarms, oracle] -> triggers of .times *)
+    Some match a with
+         | JL [s; e; JL als; orc] =>
+             let dopt (v : jv) : option (option time) :=
+               match v with
+               | JL [JS t] => if tag_is t "none" then Some None else None
+               | _ => option_map Some (d_time v)
+               end in
+             match dopt s, dopt e, d_list d_alarm als, d_oracle orc with
+             | Some s', Some e', Some als', Some o =>
+                 j_sres (fun l => JL (map (fun p : alarm * time => j_time o (snd p)) l))
+                        (sbind (add_alarms als') (raw_times o s' e'))
+             | _, _, _, _ => junsupported
+             end
+         | _ => junsupported
+         end
+  else if isf f "c15_component" then
+    (* [parent, alarms, oracle, local zone] -> [times (each with trigger, ack, is_active, guards), active indices] *)
+    Some match a with
+         | JL [p; JL als; orc; loc] =>
+             match d_parent p, d_list d_alarm als, d_oracle orc, d_zkey loc with
+             | Some p', Some als', Some o, Some loc' =>
+                 let ts := component_times o p' loc' als' in
+                 JL [j_sres (fun l => JL (map (j_atime o) l)) ts;
+                     j_sres (fun l => JL (map (fun x => j_sres (j_time o) (at_trigger_prop o x)) l)) (active_of o ts)]
+             | _, _, _, _ => junsupported
+             end
+         | _ => junsupported
+         end
+  else if isf f "c15_atime" then
+    (* one AlarmTime: [trigger, alarm ack, last ack, snooze, oracle] *)
+    Some match a with
+         | JL [t; aa; la; sn; orc] =>
+             match d_time t, d_optZ aa, d_optZ la, d_optZ sn, d_oracle orc with
+             | Some t', Some aa', Some la', Some sn', Some o =>
+                 let x := {| at_trigger := t'; at_alarm_ack := aa'; at_last_ack := la'; at_snooze := sn' |} in
+                 JL [j_atime o x;
+                     jbool (spec_active (instant o t') aa' la' sn'); jbool (needs_trigger aa' la' sn');
+                     j_time o (spec_trigger o t' sn')]
+             | _, _, _, _, _ => junsupported
+             end
+         | _ => junsupported
+         end
+  else None.
